@@ -79,6 +79,11 @@ def corrupt(rng, lines, kind):
         i = rng.choice(instr_idx)
         L[i] = re.sub(r'(?i)\b(nop|q4|inr|nib|ldi|q12|tri|jmp|ldx|sel|mv2|lix|liy|bra)\b', rng.choice(['xyzzy', 'ldq', 'n0p', 'jmpp']), L[i], count=1)
         return L, 'unknown-instruction', pos_tag(i)
+    if kind == 'garble-after-statement':
+        i = rng.choice(code_idx)
+        ins = rng.choice(['nop xyzzy 1', 'lbl_gx: frob 2', 'inr a blorp', 'K_g = 5 zorch', '.byte 1 wibble', 'nop nop qqq7'])
+        L.insert(i, ins)
+        return L, 'unknown-instruction', pos_tag(i)
     if kind == 'undefined-label':
         i = rng.choice(code_idx)
         ins = rng.choice(['jmp nowhere_label', 'ldi BYTE0(_no_such)', '.2byte undefined_thing + 1', 'bra {missing_lbl}', '.byte .orphan_ref'])
@@ -131,7 +136,7 @@ def corrupt(rng, lines, kind):
     raise ValueError(kind)
 
 
-CORRUPTIONS = ['none', 'drop-token', 'dup-token', 'swap-token', 'truncate-line', 'drop-line', 'dup-line', 'swap-line',
+CORRUPTIONS = ['none', 'garble-after-statement', 'drop-token', 'dup-token', 'swap-token', 'truncate-line', 'drop-line', 'dup-line', 'swap-line',
                'garble-mnemonic', 'undefined-label', 'no-variant', 'value-overflow', 'unbalance', 'zero-length', 'junk', 'empty-file',
                'comments-only']
 
@@ -155,7 +160,7 @@ class C14(core.Check):
                         'planted:value-does-not-fit-field': 3, 'pos:first': 3, 'pos:middle': 3, 'pos:last': 3,
                         'pos:zero-length@end': 2, 'pos:zero-length@start': 2, 'pos:zero-length@before-org-gap': 2,
                         'pos:zero-length@muted': 2, 'pos:zero-length@end-after-label': 2, 'outcome:success': 3,
-                        'outcome:failure': 3, 'output-in-missing-directory': 3, 'corpus-example': 2}
+                        'outcome:failure': 3, 'output-in-missing-directory': 3, 'corpus-example': 2, 'window-options': 3}
 
     def make(self, isa_files, isa_name, main, src, fmt, planted, tags, missing_dir=False, extra_argv=()):
         files = dict(isa_files)
@@ -191,7 +196,11 @@ class C14(core.Check):
                     tags = {'corruption:' + kind, 'fmt:' + str(fmt), 'pos:' + pos}
                     if planted:
                         tags.add('planted:' + planted)
-                    yield self.make({fn: itext}, fn, 'p.asm', src, fmt, planted, tags)
+                    extra = []
+                    if rng.random() < 0.35:
+                        extra = rng.choice([['-e', '200'], ['-s', '2', '-e', '90'], ['-s', '1'], ['-e', '5', '-f', '255']])
+                        tags.add('window-options')
+                    yield self.make({fn: itext}, fn, 'p.asm', src, fmt, planted, tags, extra_argv=extra)
             if i % 4 == 0:
                 yield self.make({fn: itext}, fn, 'p.asm', '\n'.join(lines) + '\n', None, None,
                                 {'output-in-missing-directory', 'fmt:None', 'corruption:none'}, missing_dir=True)
